@@ -26,8 +26,9 @@ CAUSE_NAMES = ['normal', 'body-raises', 'child-fails', 'until-time', 'until-flag
 
 
 def fam_scope(E, causes, nested=True, volatile=True, late=True, indiv=False, real=False, pmax=2,
-              until_owner=False):
+              until_owner=False, inner_same=False):
     cause = causes[E.pick('cause', len(causes))]
+    dg2 = E.num('dg2', 0, 30, real=real) if inner_same else None
     b = E.num('b', 0, 30, real=real)          # body duration
     da = E.num('da', 0, 30, real=real)        # child A duration
     dl = E.num('dl', 0, 30, real=real) if late else None
@@ -64,6 +65,11 @@ def fam_scope(E, causes, nested=True, volatile=True, late=True, indiv=False, rea
         log('G', 'start')
         await (time + dg)
         log('G', 'end')
+
+    async def grandchild2():
+        log('G2', 'start')
+        await (time + dg2)
+        log('G2', 'end')
 
     async def child_b():
         log('B', 'start')
@@ -124,7 +130,14 @@ def fam_scope(E, causes, nested=True, volatile=True, late=True, indiv=False, rea
                         await at_cp(c, 0)
                         log('own', 'raise')
                         raise err
-                    await (time + b)
+                    if inner_same:
+                        # a second scope nested in the same activity: the body waits inside it
+                        async with Scope() as inner2:
+                            S['G2'] = inner2.do(grandchild2())
+                            await (time + b)
+                        log('own', 'inner-exit-normal', bool(S['G2'].done), log.has('G2', 'end'))
+                    else:
+                        await (time + b)
                     log('own', 'body-end')
             finally:
                 log('own', 'left', tuple(bool(S[k].done) for k in ('A', 'B', 'V', 'L', 'G')
@@ -197,7 +210,14 @@ def fam_scope(E, causes, nested=True, volatile=True, late=True, indiv=False, rea
         return
     pos_left = log.pos(left)
     t_left = left[2]
-    members = ('A', 'B', 'V', 'L', 'G', 'X')
+    members = ('A', 'B', 'V', 'L', 'G', 'X', 'G2')
+    ien = log.first('own', 'inner-exit-normal')
+    if ien is not None:
+        # the inner block was left without an exception = a normal exit of that scope
+        E.reach('inner-normal-exit')
+        E.prove(ien[3] is True and ien[4] is True, 'normal-exit-waits-for-every-child',
+                ('inner scope of the same activity left normally at %r: child done %r, ran to '
+                 'its end %r', ien[2], ien[3], ien[4]))
     # 1. nothing of the scope's tasks or their descendants runs after the block was left
     for ev in log.events[pos_left + 1:]:
         E.prove(ev[0] not in members, 'no-child-code-after-exit',
@@ -229,6 +249,8 @@ def fam_scope(E, causes, nested=True, volatile=True, late=True, indiv=False, rea
         T = MAX(b, (da + dl) if late else da)
         if nested:
             T = MAX(T, dg)
+        if inner_same:
+            T = MAX(T, dg2)     # the body itself waits for the child of its inner scope
         if indiv:
             graceful = False        # containment obligations only
         elif LT(T, c):
@@ -301,6 +323,13 @@ FAMILIES = [
                       nested=False, late=False, until_owner=True),
            reach=['graceful', 'aborted'],
            bounds='the scope is an until-scope on a notification that never fires'),
+    Family('inner_same', fam_scope,
+           quick=dict(causes=[NORMAL, CHILD_FAILS, UNTIL_TIME, UNTIL_FLAG, OWNER_CANCELLED],
+                      nested=False, late=False, inner_same=True),
+           thorough=dict(causes=ALL, nested=False, late=True, inner_same=True),
+           reach=['graceful', 'aborted', 'inner-normal-exit'],
+           bounds='the body opens a second scope in the same activity (child G2) and waits inside '
+                  'it while the exit cause strikes the outer scope'),
     Family('nested', fam_scope,
            quick=dict(causes=[NORMAL, CHILD_FAILS, UNTIL_TIME, OWNER_CANCELLED, OWNER_CLOSED],
                       nested=True, late=False),
